@@ -16,24 +16,60 @@ const (
 type segmentTimelineGenerator struct {
 	segDataBuffers map[string]*segDataBuffer
 	dstDir         string
-	latestSeqNr    uint32 // Last number in the latest generated segment times
-	oldestSeqNr    uint32 // First number in the latest generated segment times
+	latestSeqNr    uint32 // Last number in the published segment times
+	oldestSeqNr    uint32 // First number in the published segment times
 	windowSize     uint32 // Max number of segments in the segment times
 	bufferSize     uint32 // Number of segments in the buffer of a track
 	_nrTracks      uint32
 	_started       bool
 	_shifted       bool
 	_published     bool     // Segment times have been generated
-	manifest       *mpd.MPD // The latest generated MPD with segment times
+	manifest       *mpd.MPD // The published MPD with segment times. Generated, or found in dstDir at start
 }
 
 func newSegmentTimelineGenerator(dstDir string, windowSize uint32) *segmentTimelineGenerator {
-	return &segmentTimelineGenerator{
+	sg := &segmentTimelineGenerator{
 		segDataBuffers: make(map[string]*segDataBuffer),
 		dstDir:         dstDir,
 		windowSize:     windowSize,
 		bufferSize:     windowSize,
 	}
+	sg.findPublishedMPD()
+	return sg
+}
+
+// findPublishedMPD looks for an MPD with segment times in dstDir, published before a restart of the receiver.
+// The segments that it lists must be kept in storage until a new MPD has been generated.
+func (sg *segmentTimelineGenerator) findPublishedMPD() {
+	manifest, err := mpd.ReadFromFile(filepath.Join(sg.dstDir, timelineNrMPD))
+	if err != nil || len(manifest.Periods) != 1 {
+		return // No MPD, or not one of ours
+	}
+	nrSegments := uint32(0)
+	firstNr := uint32(0)
+	for i, as := range manifest.Periods[0].AdaptationSets {
+		st := as.SegmentTemplate
+		if st == nil || st.StartNumber == nil || st.SegmentTimeline == nil {
+			return
+		}
+		nrInAs := uint32(0)
+		for _, s := range st.SegmentTimeline.S {
+			nrInAs += uint32(s.R + 1)
+		}
+		if i == 0 {
+			firstNr, nrSegments = *st.StartNumber, nrInAs
+		}
+		if *st.StartNumber != firstNr || nrInAs != nrSegments {
+			return
+		}
+	}
+	if nrSegments == 0 {
+		return
+	}
+	sg.manifest = manifest
+	sg.oldestSeqNr = firstNr
+	sg.latestSeqNr = firstNr + nrSegments - 1
+	slog.Info("Found published MPD", "name", timelineNrMPD, "dir", sg.dstDir, "oldestNr", sg.oldestSeqNr, "latestNr", sg.latestSeqNr)
 }
 
 // addSegmentData adds the data of a complete segment. nrTracks is the current number of tracks of the channel.
@@ -206,10 +242,10 @@ func (sg *segmentTimelineGenerator) writeSegmentTimelineNrMPD(log *slog.Logger) 
 }
 
 // dropOldFromMPD drops the sequence numbers below firstNr, but never the latest one, from the start
-// of the latest generated MPD and writes it to disk. It is used before segments are removed from storage
+// of the published MPD and writes it to disk. It is used before segments are removed from storage
 // when the MPD cannot be regenerated because the tracks have no sequence number in common.
 func (sg *segmentTimelineGenerator) dropOldFromMPD(log *slog.Logger, firstNr uint32) error {
-	if !sg._published {
+	if sg.manifest == nil {
 		return nil
 	}
 	if firstNr > sg.latestSeqNr {
@@ -256,10 +292,10 @@ func dropFirstSegments(stl *mpd.SegmentTimelineType, nrToDrop int) {
 	}
 }
 
-// listedRange returns the first and last sequence number in the latest generated segment times.
-// ok is false if no segment times have been generated.
+// listedRange returns the first and last sequence number in the published segment times.
+// ok is false if there is no published MPD.
 func (sg *segmentTimelineGenerator) listedRange() (first, last uint32, ok bool) {
-	return sg.oldestSeqNr, sg.latestSeqNr, sg._published
+	return sg.oldestSeqNr, sg.latestSeqNr, sg.manifest != nil
 }
 
 // modifySegmentTemplate modifies the segment template to use the segment times for an adaptation set.
